@@ -95,4 +95,8 @@ func TestMkReplays(t *testing.T) {
 	doc15 := model.Doc{Records: []model.Record{{Date: date(0, 1, 1), Entries: []model.Entry{open15}}}}
 	stop15 := model.Cmd{Kind: "stop", DateSel: "explicit", Date: date(0, 1, 1), Time: &model.Time{Off: 540, Lit: "9:00"}}
 	write("C04", "fixed_F15_stop_at_first_day", "stop --date 0000-01-01 panicked", caseC04{Doc: doc15, Layout: model.Layout{Indent: []string{"\t"}, FinalEOL: true}, Env: env6, Steps: []stepC04{{Cmd: stop15}}})
+	// F3 as seen by C05: the warnings are computed after the write
+	t5 := dur(1)
+	write("C05", "known_F3_total_overflow_in_warnings", "evaluation of a file whose durations sum beyond int64 minutes panics after the file was written",
+		caseC05{Text: "2020-01-01\n\t153722867280912930h\n\t30m\n", Env: env6, Cmd: model.Cmd{Kind: "track", Entry: &t5}, NoExclusions: true})
 }
